@@ -18,7 +18,7 @@ CONSTANTS MaxLen, RandN, RandLen
 
 Vocab == [ atoms |-> [ sl |-> "/", bs |-> "\\", tab |-> "\t", sp |-> " ", lf |-> "\n", dot |-> ".", dd |-> "..", seg |-> "path",
                        evil |-> "evil.com", good |-> "good.example.com", look |-> "evilexample.com", at |-> "@", col |-> ":", port |-> "8443", p80 |-> "80", p443 |-> "443", q |-> "?", h |-> "#",
-                       p2f |-> "%2f", http |-> "http:", https |-> "https:", HTTPS |-> "HTTPS:", hTtP |-> "hTtP:", v6 |-> "[::1]", v6map |-> "[::ffff:7f00:1]", pct26 |-> "%26", pct25 |-> "%25", pct3D |-> "%3D", plus |-> "+", eq |-> "=", amp1 |-> "&", ctl |-> "{CTL}", nbsp |-> "{NBSP}", amp |-> "&x=" ] ]
+                       p2f |-> "%2f", http |-> "http:", https |-> "https:", HTTPS |-> "HTTPS:", hTtP |-> "hTtP:", v6 |-> "[::1]", v6map |-> "[::ffff:7f00:1]", pct26 |-> "%26", pct25 |-> "%25", pct3D |-> "%3D", plus |-> "+", eq |-> "=", amp1 |-> "&", ctl |-> "{CTL}", nbsp |-> "{NBSP}", amp |-> "&x=", pfxseg |-> "oauth2-docs" ] ]
 \* {CTL} and {NBSP} stand for the bytes 0x01 and U+00A0 (TLA+ strings cannot spell them); the harness substitutes them
 Tokens == {"sl", "bs", "tab", "sp", "lf", "dot", "dd", "seg", "evil", "good", "look", "at", "col", "port", "q", "h", "p2f", "http", "https", "ctl", "nbsp"}
 
@@ -152,7 +152,9 @@ PortStrs == { <<sch, "sl", "sl">> \o h \o p \o t :
 \* (the grammar strings are enumerated position by position: TLC refuses to build sets of more than 10^6 elements)
 T == Tokens
 \* plain same-site paths and queries with escapes (the byte-for-byte clause)
-PlainStrs == { <<"sl", "seg">> \o a \o b : a \in {<<>>, <<"p2f", "seg">>, <<"pct25">>, <<"plus", "seg">>, <<"sl", "seg", "pct26">>},
+\* (pfxseg: a first segment that merely STARTS like the proxy prefix - "/oauth2-docs/..." is an application path like any other)
+PlainStrs == { <<"sl", "pfxseg">>, <<"sl", "pfxseg", "sl", "seg">>, <<"sl", "pfxseg", "sl", "seg", "q", "seg", "eq", "seg">>, <<"sl", "pfxseg", "q", "seg", "eq", "seg">> } \cup
+             { <<"sl", "seg">> \o a \o b : a \in {<<>>, <<"p2f", "seg">>, <<"pct25">>, <<"plus", "seg">>, <<"sl", "seg", "pct26">>},
                                             b \in {<<>>, <<"q", "seg", "eq", "seg">>, <<"q", "seg", "eq", "seg", "pct26", "seg", "pct3D", "seg", "amp1", "seg", "eq", "plus">>,
                                                     <<"q", "seg", "eq", "pct25", "p2f">>, <<"q", "plus", "eq", "seg", "plus", "seg">>} }
 \* fragments are inert for a browser but not for whoever cleans the path of a Location: dot segments and back-slashes after '#'
@@ -180,7 +182,7 @@ C06_NoOpenRedirect == Impl_Valid(c.s, c.wl) => Safe(BrowserResolve(c.s), c.wl)
 
 \* a plain same-site path and query: where the user lands after login, byte for byte
 \* (percent-escapes, '+', '=' and '&' are ordinary characters of a path or query: they must come back as they were sent)
-PlainTok == {"sl", "seg", "q", "p2f", "pct26", "pct25", "pct3D", "plus", "eq", "amp1"}
+PlainTok == {"sl", "seg", "pfxseg", "q", "p2f", "pct26", "pct25", "pct3D", "plus", "eq", "amp1"}
 Plain(s) == /\ s # <<>> /\ s[1] = "sl" /\ \A i \in 1..Len(s) : s[i] \in PlainTok
             /\ \A i \in 1..(Len(s) - 1) : ~(s[i] = "sl" /\ s[i+1] = "sl")
             /\ Cardinality({i \in 1..Len(s) : s[i] = "q"}) <= 1
